@@ -344,7 +344,15 @@ def solve(ctx: Ctx, ob: Ob) -> Result:
     rc, out, wall = run(main, ob.timeout)
     res.cmds.append(' '.join(main))
     if rc == -999:
-        res.status, res.detail = 'timeout', 'cbmc exceeded %ds' % ob.timeout
+        # one retry with the other SAT back end (a time-out on a loaded machine, or an unlucky search, is not a verdict)
+        alt = [x for x in main if x not in ('--sat-solver', 'cadical')]
+        if ob.backend != 'cadical':
+            alt = alt + ['--sat-solver', 'cadical']
+        rc, out, wall = run(alt, ob.timeout)
+        res.cmds.append(' '.join(alt))
+        res.detail = 'first run timed out after %ds, retried with the other SAT back end' % ob.timeout
+    if rc == -999:
+        res.status, res.detail = 'timeout', 'cbmc exceeded %ds twice (both SAT back ends)' % ob.timeout
         res.wall_s = time.time() - t0
         return res
     st, props, failed, errors, solver, _ = parse_cbmc_json(out)
